@@ -12,7 +12,7 @@ Not decided: UTF-8 lossy conversion, Path::join semantics, zip truncation on une
 import re
 from engine import op_place, const_int
 from terms import TermBuilder, render, strip_proj
-from common import ok_assign_blocks, switch_info, arms_of, reach_from, err_assign_blocks, fmt_key
+from common import ok_assign_blocks, switch_info, arms_of, reach_from, err_assign_blocks, fmt_key, constructed_errors
 from c01 import agg_fields
 
 G = "rpm::headers::header::Header::<T>::get_entry_data_as_"
@@ -253,8 +253,17 @@ def run(f, fixture, rep, cfg, tier):
                 some.add(v)
         rep.check(some == accept, "R3", "as|%s|variants" % name, "%s accepts exactly %s" % (name, sorted(accept)), "%s accepts %s (expected %s)" % (name, sorted(some), sorted(accept)), b.span)
         if first:
-            fc = [c for c in b.calls() if re.search(r"<impl \[T\]>::first$", c.decl)]
-            rep.check(len(fc) == 1, "R3", "as|%s|first" % name, "%s returns the first element" % name, "%s does not use first()" % name, b.span)
+            # ... and nothing but the first element: the value returned for the accepted variant is first() / get(0) / [0] of the
+            # stored list, optionally mapped by a conversion-only closure (a search for a "better" item returns a value the
+            # entry does not store in first position)
+            ret = render(TermBuilder(b).term({"c": {"l": 0, "p": []}}))
+            alts = [a_ for a_ in (ret[4:-1].split(" | ") if ret.startswith("phi(") else [ret]) if not a_.startswith("std::option::Option::None")]
+            CONV = r"(std::string::String::as_str|std::ops::Deref::deref|std::convert::AsRef::as_ref|std::clone::Clone::clone|std::borrow::Borrow::borrow)"
+            shape = r"(std::option::Option::<&?T>::(copied|cloned|map)\()?(core::slice::<impl \[T\]>::(first|get)|std::iter::Iterator::next)\((core::slice::<impl \[T\]>::iter\()?self<\w+>\.0\)?(, 0_usize)?\)(, (closure\{\}|" + CONV + r")\))?"
+            okf = bool(alts) and all(re.fullmatch(shape, a_) or re.fullmatch(r"std::option::Option::Some\{self<\w+>\.0\[0[^\]]*\]\}", a_) for a_ in alts)
+            conv_only = all(re.search(CONV + "$", c2.decl) for cb2 in f.closures_of(b) for c2 in cb2.calls())
+            rep.check(okf and conv_only, "R3", "as|%s|first-only" % name, "%s returns the first stored element and nothing else" % name,
+                      "%s returns %s: not (only) the first element of the stored list" % (name, [a_[:160] for a_ in alts]), b.span)
     for suffix, asfn in GETTER_AS.items():
         bs = [b for b in f.body_list if b.name == "get_entry_data_as_" + suffix and "header::Header<" in (b.impl_self or "")]
         if not rep.check(len(bs) == 1, "R3", "getter|%s|exists" % suffix, "get_entry_data_as_%s exists" % suffix, "get_entry_data_as_%s: %d bodies" % (suffix, len(bs))):
@@ -268,20 +277,10 @@ def run(f, fixture, rep, cfg, tier):
         ac = [c for c in b.calls() if re.search(r"IndexData::as_\w+$", c.decl)]
         rep.check(len(ac) == 1 and ac[0].decl.endswith("::" + asfn), "R3", "getter|%s|as" % suffix, "uses IndexData::%s" % asfn,
                   "get_entry_data_as_%s uses %s" % (suffix, [c.decl.rsplit("::", 1)[-1] for c in ac]), b.span)
-        errs = set()
-        for cb in f.closures_of(b):
-            for bb in cb.reachable():
-                for st in cb.stmts(bb):
-                    if st["k"] == "assign" and st["rv"]["r"] == "agg" and st["rv"].get("adt", "").endswith("errors::Error"):
-                        errs.add(st["rv"]["variant"])
+        errs = constructed_errors(f, b)      # in the getter itself (match / let-else form) or in its ok_or_else closure
         rep.check(errs == {"UnexpectedTagDataType"}, "R3", "getter|%s|type-error" % suffix, "a different data type is UnexpectedTagDataType", "type mismatch yields %s" % sorted(errs), b.span)
     fe = f.one("header::Header::<T>::find_entry_or_err")
-    errs = set()
-    for cb in f.closures_of(fe):
-        for bb in cb.reachable():
-            for st in cb.stmts(bb):
-                if st["k"] == "assign" and st["rv"]["r"] == "agg" and st["rv"].get("adt", "").endswith("errors::Error"):
-                    errs.add(st["rv"]["variant"])
+    errs = constructed_errors(f, fe)
     # the index is in whatever order the package stored it (parse keeps the order): a lookup may not assume an order
     ORDERED = r"(binary_search\w*|partition_point|sort\w*|dedup\w*)$"
     n_lookup = 0
@@ -428,7 +427,7 @@ def run(f, fixture, rep, cfg, tier):
             for bb in sorted(cb.reachable()):
                 for st in cb.stmts(bb):
                     if st["k"] == "assign" and st["rv"]["r"] == "agg" and st["rv"].get("ak") == "adt" and st["rv"].get("adt", "").endswith(adt_suffix):
-                        out = {n: render(normalize(f, tbc.term(o))) for n, o in zip(st["rv"]["fields"], st["rv"]["ops"])}
+                        out = {n: render(normalize(f, tbc.term(o), tb=tbc)) for n, o in zip(st["rv"]["fields"], st["rv"]["ops"])}
         return out
 
     def elem_of(r):
@@ -505,7 +504,6 @@ def run(f, fixture, rep, cfg, tier):
     G = "rpm::headers::header::Header::<T>::get_entry_data_as_%s(self.header, constants::IndexTag::%s{})<Ok>.0"
     want_dir = "std::path::Path::new(core::slice::<impl [T]>::get(%s, usize(ELEM(%s)))<Some>.0)" % (G % ("string_array", "RPMTAG_DIRNAMES"), G % ("u32_array", "RPMTAG_DIRINDEXES"))
     want_base = "ELEM(%s)" % (G % ("string_array", "RPMTAG_BASENAMES"))
-    from common import constructed_errors
     work, seenp = [gp], set()
     joins_seen = []
     while work:
@@ -519,7 +517,8 @@ def run(f, fixture, rep, cfg, tier):
             if c.decl == "std::path::Path::join":
                 a0, a1 = render(normalize(f, tcb.term(c.args[0]))), render(normalize(f, tcb.term(c.args[1])))
                 joins_seen.append((a0[:120], a1[:120]))
-                if a0 == want_dir and a1 == want_base:
+                # `dirs.get(i).ok_or_else(..)?` reads the element as the `Ok` payload of the converted Option
+                if a0 in (want_dir, want_dir[:-len("<Some>.0)")] + "<Ok>.0)") and a1 == want_base:
                     okj = True
     okj = okj and "InvalidTagIndex" in constructed_errors(f, gp)
     rep.check(okj, "R6", "file_paths|join", "path = dirs.get(dirindex) joined with the basename of the same position; bad index -> InvalidTagIndex",
